@@ -50,13 +50,17 @@ def oracle(ck, h):
             f["step"], OPN[h["ops"][f["step"]]["k"]], f["in_func"], f["was"], f["is"]), {"ops": h["ops"][:f["step"] + 1], "foreign": h["foreign"]})
         return
     looked = {}
-    hm = []
+    hm = []          # handle -> target
+    hb = []          # handle -> builder
+    live = set()     # (builder, mocker serial, target): that mocker has applied a mock which has not been cancelled / reset since
+    ser = h.get("hserial") or []
     prev = [0] * NT
     for st, op in enumerate(h["ops"]):
         k, a, b = op["k"], op["a"], op["b"]
         cells, probes = h["cells"][st], h["probes"][st]
         if k == 0:
             hm.append(b)
+            hb.append(a)
             looked.setdefault(a, set()).add(b)
         for t in range(NT):
             if cells[t] == -3:
@@ -76,8 +80,24 @@ def oracle(ck, h):
                 ck.impl_violation("cross-effect", "step %d (%s on target(s) %s) changed the entry of target %d" % (st, OPN[k], sorted(allowed), t),
                                   {"ops": h["ops"][:st + 1], "before": prev, "after": cells})
                 return
-        if k == 4 and cells[hm[a]] != 0 and prev[hm[a]] != 0:
-            pass  # a Cancel through a handle whose mocker never patched leaves another mocker's jump in place: decided by the model
+        # a builder that has nothing applied (any more) on a target must leave that target's entry alone: a second Reset, or
+        # a Cancel of an already cancelled mocker, must not remove the mock ANOTHER builder installed in the meantime
+        if k in (4, 5) and not h["panics"][st] if "panics" in h else k in (4, 5):
+            sid = lambda x: ser[x] if x < len(ser) else -1 - x
+            mine = {t for (bb, m_, t) in live if bb == a} if k == 5 else ({hm[a]} if (hb[a], sid(a), hm[a]) in live else set())
+            for t in range(NT):
+                if cells[t] != prev[t] and t not in mine:
+                    ck.impl_violation("reset-of-a-finished-builder-removes-a-newer-mock", "step %d: %s by a builder that has no live mock of target %d changed its entry (cell %d -> %d): another builder's mock was removed" % (
+                        st, OPN[k], t, prev[t], cells[t]), {"ops": h["ops"][:st + 1], "before": prev, "after": cells})
+                    return
+        sid = lambda x: ser[x] if x < len(ser) else -1 - x
+        if k in (1, 2):
+            if cells[hm[a]] != 0:
+                live.add((hb[a], sid(a), hm[a]))
+        elif k == 4:
+            live.discard((hb[a], sid(a), hm[a]))
+        elif k == 5:
+            live = {(bb, m_, t) for (bb, m_, t) in live if bb != a}
         prev = cells
     if h["end_diff_bytes"]:
         ck.impl_violation("not-pristine-after-reset", "after resetting every builder %d bytes outside placeholder bodies still differ from the pristine image" % h["end_diff_bytes"],
